@@ -111,7 +111,12 @@ func (list sortableFieldInfos) Len() int {
 }
 
 func (list sortableFieldInfos) Less(i, j int) bool {
-	return list[i].JSONName < list[j].JSONName
+	if list[i].JSONName != list[j].JSONName {
+		return list[i].JSONName < list[j].JSONName
+	}
+	// of the fields sharing a JSON name the shallowest comes last: it is the one
+	// encoding/json writes, and the last one is the one the schema keeps
+	return len(list[i].Index) > len(list[j].Index)
 }
 
 func (list sortableFieldInfos) Swap(i, j int) {
